@@ -88,3 +88,5 @@ class ExcelFormat(FileFormat):
     def finalize_file(self):
         self.workbook.save(self.tmpfile.name)
         self.workbook.close()
+        # The workbook is saved by name: position the handle at the end of the data for size accounting
+        self.tmpfile.seek(0, 2)
